@@ -24,8 +24,7 @@ def main(tier, seed):
     for part in core.pmap(_run, jobs):
         rep.merge(part)
     c = rep.counters
-    if c["uforms.pairs"] == 0 or c["is_tld.hit"] < len(mdl.rows):
-        raise core.Inconclusive("table rows not all exercised (%d hits, %d rows)" % (c["is_tld.hit"], len(mdl.rows)))
+    rep.require(not (c["uforms.pairs"] == 0 or c["is_tld.hit"] < len(mdl.rows)), "table rows not all exercised (%d hits, %d rows)" % (c["is_tld.hit"], len(mdl.rows)))
     rep.assumptions += ["R-TLD = name/class columns parsed from the text of src/auto_tld.c (C11 ties that table to the CSV)",
                         "domains with a root dot are outside the statement and are not judged"]
     return rep.finish(c["lookups"] + c["is_tld.calls"] + c["uforms.pairs"], rep.distinct_count,
